@@ -49,6 +49,8 @@ def check_program(item):
         expects = [("start", dict(code=code0, raw=code0, consumed=0, hooks=conform.hooks_of(ev0), state=am.state_index(cfg0), data=cfg0["data"]), None)]
         # ---- forced single steps
         second = sorted(set([0x61, 0x62, 0x00, 0xff, 0x30]))
+        nullable = cp.nullable_strings()
+        null_ctx = [any(len(ctx[nm]) == 0 for nm in nullable) for ctx in ctxs]
         for si in range(nst):
             for ci, ctx in enumerate(ctxs):
                 for sym in syms:
@@ -63,6 +65,10 @@ def check_program(item):
                     e["consumed"] = e["adv"]
                     ops.append(cp.op_state(si) + cp.op_data(ctx) + (cp.op_end() if sym == END else cp.op_feed(bytes([sym]))) + cp.op_snap())
                     expects.append(("step", e, (si, sym, ci)))
+                    if null_ctx[ci]:
+                        # the same abstract context with empty on-demand strings represented by NULL (as after start() or a freeing delete)
+                        ops.append(cp.op_state(si) + cp.op_data(ctx, null_empty=True) + (cp.op_end() if sym == END else cp.op_feed(bytes([sym]))) + cp.op_snap())
+                        expects.append(("step", e, (si, sym, ci)))
                     res["outcomes"].add((e["raw"], len(e["hooks"]), e["state"] == si))
                 # two-byte chunks (first byte over a few values, second over a few): in-feed jump paths
                 if ci < 2:
